@@ -60,6 +60,23 @@ TraceSpec == TraceInit /\ [][TraceNext]_tvars
 BehId == Beh[b].id
 
 Inv_C01 == C01
+Inv_C02 == C02
+Inv_C03 == C03
+Inv_C04 == C04
+Inv_C05 == C05
+Inv_C06 == C06
 Inv_C07 == C07
 Inv_C08 == C08
+Inv_C09 == C09
+Inv_C10 == C10
+Inv_C11 == C11
+Inv_C12 == C12
+Inv_C13 == C13
+Inv_C14 == C14
+Inv_C15 == C15
+Inv_C16 == C16
+Inv_C17 == C17
+Inv_C18 == C18
+Inv_C19 == C19
+Inv_C20 == C20
 =============================================================================
